@@ -428,6 +428,7 @@ Definition op_in_D (op : sop) : Prop :=
   match op with
   | OReceive p _ _ => p_hash p = ver (p_name p)
   | OTamper _ ext _ => ext = 0 \/ ext = 1
+  | OImage img => Inv img      (* the durable state found after a process death satisfies the invariant (C06) *)
   | _ => True
   end.
 
@@ -449,6 +450,7 @@ Proof.
       destruct (alookup n (parts s)); auto. eapply inv_same5; [|exact I]. repeat split.
     + change (1 =? 0) with false. change (1 =? 1) with true. cbv iota.
       destruct (ahas n (fulls s)); auto. eapply inv_same5; [|exact I]. repeat split.
+  - cbn [fst]. apply inv_crash. exact HD.
 Qed.
 
 Fixpoint srun (s : stage) (ops : list sop) : stage :=
